@@ -20,11 +20,11 @@
 EXTENDS Naturals, Integers, Sequences, FiniteSets, TLC
 
 NoConn == [st |-> "none", key |-> 0, cdrop |-> FALSE, cgone |-> FALSE]
-NoCall == [k |-> 0, st |-> "none", dl |-> 0, sent |-> FALSE, id |-> -1, ans |-> FALSE, P |-> 0, h |-> "none", starts |-> 0, gate |-> FALSE, inc |-> 0]
+NoCall == [k |-> 0, st |-> "none", dl |-> 0, sent |-> FALSE, id |-> -1, ans |-> FALSE, canc |-> 0, P |-> 0, h |-> "none", starts |-> 0, gate |-> FALSE, inc |-> 0]
 
 YInit(n, limit, mif) ==
   [n |-> n, limit |-> limit, mif |-> mif, now |-> 0, conn |-> <<>>, call |-> <<>>, down |-> FALSE,
-   bad01 |-> {}, bad02 |-> {}, bad04 |-> {}, bad05 |-> {}, bad06 |-> {}, bad10 |-> {}, bad12 |-> {}, bad13 |-> {}]
+   bad01 |-> {}, bad02 |-> {}, bad03 |-> {}, bad04 |-> {}, bad05 |-> {}, bad06 |-> {}, bad10 |-> {}, bad12 |-> {}, bad13 |-> {}]
 
 Conn(y, k) == IF k \in DOMAIN y.conn THEN y.conn[k] ELSE NoConn
 Call(y, c) == IF c \in DOMAIN y.call THEN y.call[c] ELSE NoCall
@@ -83,6 +83,14 @@ YSend(y0, c, k, id) ==
                 "bad01", r.sent, "the request of one call was transmitted twice")
   IN IF r.st = "none" THEN y1
      ELSE SetCall(y1, c, [r EXCEPT !.sent = TRUE, !.id = id, !.P = Cardinality(Potential(y1, c, k))])
+
+(* the client wrote a cancellation for request id `id` on connection k *)
+YCancelOut(y, k, id) ==
+  LET xs == {x \in CallsOf(y, k) : y.call[x].sent /\ y.call[x].id = id}
+      y1 == Bad(y, "bad03", xs = {}, "a cancellation was transmitted for a request that was never transmitted")
+      y2 == Bad(y1, "bad03", \E x \in xs : y.call[x].canc >= 1, "two cancellations were transmitted for one request")
+      y3 == Bad(y2, "bad03", \E x \in xs : y.call[x].st \in {"ok", "throttled"}, "a cancellation was transmitted for a call that resolved normally")
+  IN IF xs = {} THEN y3 ELSE LET x == CHOOSE x \in xs : TRUE IN SetCall(y3, x, [y3.call[x] EXCEPT !.canc = @ + 1])
 
 (* the server wrote a response (of any kind) bearing request id `id` on connection k *)
 YServerOut(y0, k, id) ==
@@ -156,7 +164,10 @@ YIdle(y0, busy) ==
       pend == {c \in cs : y.call[c].st = "pending"}
       SentPending(k) == {x \in CallsOf(y, k) : y.call[x].st = "pending" /\ y.call[x].sent}
       y1 == Bad(y, "bad02", busy, "the runtime never ran out of work")
-      y2 == Bad(y1, "bad04", \E c \in cs : y.call[c].st = "abandoned" /\ y.call[c].h = "running",
+      y1b == Bad(y1, "bad03", \E c \in cs : y.call[c].st = "abandoned" /\ y.call[c].sent /\ ~y.call[c].ans /\ y.call[c].canc = 0
+                                          /\ y.now < y.call[c].dl /\ Conn(y, y.call[c].k).st = "alive",
+                 "an abandoned call's request was transmitted and never answered, but no cancellation followed it")
+      y2 == Bad(y1b, "bad04", \E c \in cs : y.call[c].st = "abandoned" /\ y.call[c].h = "running",
                 "the handler of an abandoned call is still running once the system is idle")
       y3 == Bad(y2, "bad06", \E c \in cs : y.call[c].h = "running" /\ y.now >= y.call[c].dl + 1,
                 "a handler is still running after its request's deadline once the system is idle")
@@ -173,5 +184,5 @@ YIdle(y0, busy) ==
                 "every client handle is gone and nothing is in flight, but the server channel has not ended")
   IN y8
 
-NoBad(y) == y.bad01 = {} /\ y.bad02 = {} /\ y.bad04 = {} /\ y.bad05 = {} /\ y.bad06 = {} /\ y.bad10 = {} /\ y.bad12 = {} /\ y.bad13 = {}
+NoBad(y) == y.bad01 = {} /\ y.bad02 = {} /\ y.bad03 = {} /\ y.bad04 = {} /\ y.bad05 = {} /\ y.bad06 = {} /\ y.bad10 = {} /\ y.bad12 = {} /\ y.bad13 = {}
 =============================================================================
